@@ -3,16 +3,19 @@
 (** * DhpQuietB: steps the C03 invariant cannot see; generic rules; the quiet programs (free lists, guard side). *)
 From Coq Require Import ZArith NArith List String Bool Lia PeanoNat.
 From LV Require Import Base.Conc Base.Events Model.DhpLang Model.Dhp Proofs.DhpBase Proofs.DhpSeq Proofs.DhpSeqThm Proofs.DhpHist
-  Proofs.DhpLangProofs Proofs.DhpInvB Proofs.DhpConsInv.
+  Proofs.DhpLangProofs Proofs.DhpInvB Proofs.DhpConsSTrace Proofs.DhpConsInv.
 From LV Require Proofs.DhpQuietB.
 Import ListNotations.
 
 Definition qevB (e : ev) : Prop :=
   retired_ev e = [] /\
   match classify e with
-  | HDispose _ | HAlloc FRt _ | HFree FRt _ => False
+  | HDispose _ | HAlloc FRt _ | HFree FRt _ | HAtt _ | HScanb _ => False
   | _ => True
   end.
+
+Lemma qevB_hq es : Forall qevB es -> Forall hq es.
+Proof. intros H. eapply Forall_impl; [|exact H]. intros e (E1 & E2). split; auto. destruct (classify e); auto. Qed.
 
 Lemma freehRt_hstep_quiet h t e : qevB e -> freeh (hstep h (t, e)) FRt = freeh h FRt.
 Proof.
@@ -50,8 +53,9 @@ Section QuietB.
     constructor; auto.
     - rewrite Ef. exact J2.
     - rewrite disposed_tr_app, disposed_tr_quiet, app_nil_r by auto.
-      apply JW_frame with (g := g') (a := a) (rt := retired_tr tr); auto.
-      all: intros p; rewrite retired_tr_app, retired_tr_quiet, app_nil_r by auto; tauto.
+      apply JW_frame with (g := g') (a := a) (rt := retired_tr tr) (tr := tr); auto.
+      all: try solve [intros p; rewrite retired_tr_app, retired_tr_quiet, app_nil_r by auto; tauto].
+      apply HSame_hq. apply qevB_hq. exact Hq.
   Qed.
 
   Lemma InvB_quiet g g' a tr t es : InvB c g a tr -> piB g g' -> Forall qevB es -> InvB c g' a (tr ++ Conc.tag t es).
@@ -145,9 +149,7 @@ Lemma qevB_alloc_hp b : qevB (ev_alloc FHp b). Proof. split; [reflexivity|]. now
 Lemma qevB_free_hp b : qevB (ev_free FHp b). Proof. split; [reflexivity|]. now rewrite classify_free. Qed.
 Lemma qevB_new f b : qevB (ev_new f b). Proof. split; [destruct f; reflexivity|]. now rewrite classify_new. Qed.
 Lemma qevB_link r b : qevB (ev_link r b). Proof. split; [reflexivity|]. now rewrite classify_link. Qed.
-Lemma qevB_att r : qevB (ev_att r). Proof. split; [reflexivity|]. now rewrite classify_att. Qed.
 Lemma qevB_det r : qevB (ev_det r). Proof. split; [reflexivity|]. now rewrite classify_det. Qed.
-Lemma qevB_scanb r : qevB (ev_scanb r). Proof. split; [reflexivity|]. now rewrite classify_scanb. Qed.
 Lemma qevB_scane r : qevB (ev_scane r). Proof. split; [reflexivity|]. now rewrite classify_scane. Qed.
 Lemma qevB_own s : qevB (ev_own s). Proof. split; [destruct s; reflexivity|exact I]. Qed.
 Lemma qevB_rel s : qevB (ev_rel s). Proof. split; [destruct s; reflexivity|exact I]. Qed.
@@ -157,6 +159,6 @@ Lemma qevB_skip : qevB (EvCli "skip" []). Proof. split; [reflexivity|exact I]. Q
 Lemma qevB_fuel : qevB (EvCli "outoffuel" []). Proof. split; [reflexivity|exact I]. Qed.
 Lemma qevB_err : qevB (EvCli "modelerror" []). Proof. split; [reflexivity|exact I]. Qed.
 
-#[export] Hint Resolve qevB_acc qevB_slot qevB_alloc_hp qevB_free_hp qevB_new qevB_link qevB_att qevB_det qevB_scanb qevB_scane
+#[export] Hint Resolve qevB_acc qevB_slot qevB_alloc_hp qevB_free_hp qevB_new qevB_link qevB_det qevB_scane
   qevB_own qevB_rel qevB_relall qevB_ret qevB_skip qevB_fuel qevB_err : qdbB.
 #[export] Hint Resolve piB_refl piB_fl_set_head piB_fl_set_refs piB_fl_set_next piB_slot_set piB_snext_set piB_upd_gb : qdbB.
